@@ -2,7 +2,7 @@
 # Runs every seeded change against the quick check of the property it targets
 # (and optional extra properties), applying it to /repo and undoing it straight afterwards.
 # usage: tools/seed_matrix.sh [seed-dir ...]    output: one line per (seed, check)
-cd /verif
+ROOT=$(dirname "$(dirname "$(readlink -f "$0")")"); cd $ROOT
 # MATRIX_REPO: apply the changes to another checkout (e.g. a scratch worktree) instead of /repo
 R=${MATRIX_REPO:-/repo}
 [ "$R" != /repo ] && export VERIF_REPO=$R
@@ -13,11 +13,11 @@ for s in $SEEDS; do
   extra=$(cat $s/also 2>/dev/null)
   for p in $prop $extra; do
     if [ -n "$(git -C $R status --porcelain)" ]; then echo "$id $p REPO-NOT-CLEAN"; exit 2; fi
-    if ! git -C $R apply /verif/$s/patch.diff 2>/dev/null; then echo "$id $p PATCH-DOES-NOT-APPLY"; continue; fi
+    if ! git -C $R apply $ROOT/$s/patch.diff 2>/dev/null; then echo "$id $p PATCH-DOES-NOT-APPLY"; continue; fi
     st=$(date +%s)
-    ./check $p quick > /tmp/matrix_out.txt 2>&1; rc=$?
+    ./check $p quick > $ROOT/work/matrix_out.txt 2>&1; rc=$?
     git -C $R checkout -- . ; git -C $R clean -fdq
-    mon=$(grep -a -o "^  \[[a-z-]*\]" /tmp/matrix_out.txt | sort | uniq -c | sort -rn | awk '{printf "%s%s ", $2, $3}' | head -c 200)
+    mon=$(grep -a -o "^  \[[a-z-]*\]" $ROOT/work/matrix_out.txt | sort | uniq -c | sort -rn | awk '{printf "%s%s ", $2, $3}' | head -c 200)
     echo "$id $p exit=$rc secs=$(( $(date +%s) - st )) monitors: $mon"
   done
 done
